@@ -520,6 +520,7 @@ pub fn check(prop: &str, tier_s: &str) -> i32 {
     let replay_dir = verif_dir().join("replays");
     let mut n_viol = 0u64;
     let mut n_known = 0u64;
+    let mut n_unrepro = 0u64;
     for (sig, vs) in &by_sig {
         if let Some(f) = findings
             .iter()
@@ -531,10 +532,28 @@ pub fn check(prop: &str, tier_s: &str) -> i32 {
             continue;
         }
         let n_occ = b.sig_counts.get(sig).copied().unwrap_or(vs.len() as u64);
-        n_viol += n_occ;
-        let first = &vs[0];
         let _ = std::fs::create_dir_all(&replay_dir);
-        let rep = minimise::minimise_and_confirm(first, Duration::from_secs(90));
+        // a violation counts only if its recording fails again in a fresh process
+        let mut rep = None;
+        for cand in vs.iter().take(3) {
+            rep = minimise::minimise_and_confirm(cand, Duration::from_secs(90)).map(|r| (cand, r));
+            if rep.is_some() {
+                break;
+            }
+        }
+        let (first, rep) = match rep {
+            Some(x) => x,
+            None => {
+                println!(
+                    "note: {n_occ} observation(s) of {sig} could not be reproduced in a fresh process and are not reported (first: case {}: {})",
+                    vs[0].index,
+                    vs[0].outcome.violation.as_ref().map(|v| v.message.replace('\n', " ")).unwrap_or_default()
+                );
+                n_unrepro += n_occ;
+                continue;
+            }
+        };
+        n_viol += n_occ;
         let path = replay_dir.join(format!("{prop}-{seed}-{}.json", first.index));
         let _ = std::fs::write(&path, serde_json::to_string_pretty(&rep).unwrap());
         println!(
@@ -547,7 +566,7 @@ pub fn check(prop: &str, tier_s: &str) -> i32 {
         exit = if exit == 2 { 2 } else { 1 };
     }
     let _ = std::fs::remove_dir_all(scratch_base());
-    write_evidence(prop, tier_s, seed, &b, n_viol, n_known);
+    write_evidence(prop, tier_s, seed, &b, n_viol, n_known, n_unrepro);
     report_probes(prop, &b.stats);
     println!(
         "property={prop} tier={tier_s} cases={} sim_runs={} steps={} interleavings={} wall={:.1}s violations={} known={} exit={exit}",
@@ -570,7 +589,7 @@ fn report_probes(prop: &str, s: &Stats) {
     }
 }
 
-fn write_evidence(prop: &str, tier: &str, seed: u64, b: &BatchResult, n_viol: u64, n_known: u64) {
+fn write_evidence(prop: &str, tier: &str, seed: u64, b: &BatchResult, n_viol: u64, n_known: u64, n_unrepro: u64) {
     let s = &b.stats;
     let hours = (b.wall_s / 3600.0).max(1e-9);
     let mut samples = s.samples.clone();
@@ -600,6 +619,7 @@ fn write_evidence(prop: &str, tier: &str, seed: u64, b: &BatchResult, n_viol: u6
             "components": engines::components(prop),
             "workers": n_workers(),
             "known_finding_occurrences": n_known,
+            "unreproducible_observations": n_unrepro,
         },
         "assumptions": engines::assumptions(prop),
         "wall_s": b.wall_s,
